@@ -44,9 +44,6 @@ def handle : P String := do
   | "dorigin" => do
     let d ← pDim; let dims ← P.list P.rat; P.done
     pure (showExcept showRats (defaultOrigin d dims))
-  | "numvox" => do
-    let cs ← pCS; let len ← P.rat; let p ← P.nat; P.done
-    pure (toString (cs.numVoxels len p))
   | "pt" => do
     let conv ← P.tok; let cs ← pCS; let pt ← pPt; P.done
     match conv with
@@ -59,6 +56,17 @@ def handle : P String := do
     match k with
     | "vox" => pure (showInts (mkVoxel xs))
     | "ctr" => pure (showRats (mkCenter xs))
+    | _ => failure
+  | "ptto" => do
+    let k ← P.tok; let cs ← pCS; let pt ← pPt; P.done
+    let kind ← (match k with | "coord" => some PtKind.coord | "vox" => some PtKind.vox | "ctr" => some PtKind.ctr | "other" => some PtKind.other | _ => none : Option PtKind)
+    pure (showExcept showPt (pt.to cs kind))
+  | "form" => do
+    let which ← P.tok; let f ← P.tok; let cs ← pCS; let x ← P.list P.rat; P.done
+    let form ← (match f with | "list" => some CallForm.list | "tuple" => some CallForm.tuple | "array" => some CallForm.array | _ => none : Option CallForm)
+    match which with
+    | "coordinate" => pure (showExcept showRats (cs.coordinateForm form x))
+    | "voxel" => pure (showExcept showInts (cs.voxelForm form x))
     | _ => failure
   | "hist" => do
     -- hist <cs> <k> (touch | reset | origin <list rat> | dims <list rat>)*  ->  final dims | origin | coordinate(0) | opposite
